@@ -170,6 +170,9 @@ theorem doActs_logOK (env : Env P) (acts : List (Act P)) :
 
 /-! ### the setting of the content theorems -/
 
+/-- the command ends with a linker run -/
+def linking (cmd : Cmd P) : Prop := cmd.mode = .link ∧ cmd.depsOnly = false
+
 /-- assumptions on the environment and the command under which contents are predictable -/
 structure Setup (env : Env P) (cmd : Cmd P) (fs₀ : FS P) (ts : List P) : Prop where
   mode : env.mode = cmd.mode
@@ -198,7 +201,7 @@ structure LoopInv (cmd : Cmd P) (fs₀ : FS P) (ts : List P) (pre : List (Input 
   units : ∀ u ∈ pre, isUnit cmd u = true →
     y.2.get (unitOutput cmd u) = some ⟨unitCls cmd, fs₀.origins u.path⟩
   frame : ∀ p, p ∉ y.1.tmpfiles → (∀ u ∈ pre, isUnit cmd u = true → unitOutput cmd u ≠ p) → y.2.get p = fs₀.get p
-  ldOrig : cmd.mode = .link → y.1.ldArgs.map y.2.origins = pre.map (fun u => fs₀.origins u.path)
+  ldOrig : linking cmd → y.1.ldArgs.map y.2.origins = pre.map (fun u => fs₀.origins u.path)
   ldWhere : ∀ p ∈ y.1.ldArgs, p ∈ y.1.tmpfiles ∨ p ∈ cmd.inputs.map (·.path)
 
 omit [DecidableEq P] in
@@ -244,39 +247,60 @@ structure UnitOK (env : Env P) (cmd : Cmd P) (ts : List P) (n : Nat) (u : Input 
   ncc1 : z.1.nCc1 = y.1.nCc1 + (if effKind cmd.mode u.kind = .C then 1 else 0)
   frame : ∀ p, p ∉ z.1.tmpfiles ∨ p ∈ y.1.tmpfiles → (isUnit cmd u = true → p ≠ unitOutput cmd u) → z.2.get p = y.2.get p
   unit : isUnit cmd u = true → z.2.get (unitOutput cmd u) = some ⟨unitCls cmd, y.2.origins u.path⟩
-  ld : cmd.mode = .link → ∃ q, z.1.ldArgs = y.1.ldArgs ++ [q] ∧ z.2.origins q = y.2.origins u.path ∧
+  ld : linking cmd → ∃ q, z.1.ldArgs = y.1.ldArgs ++ [q] ∧ z.2.origins q = y.2.origins u.path ∧
         (q ∈ z.1.tmpfiles ∨ q = u.path)
-  ld' : cmd.mode ≠ .link → ∀ q ∈ z.1.ldArgs, q ∈ y.1.ldArgs ∨ q = u.path
+  ld' : ¬ linking cmd → ∀ q ∈ z.1.ldArgs, q ∈ y.1.ldArgs ∨ q = u.path
+
+/-- the path the cc1 child of unit `u` writes that is not a temporary: the `-o` file under `-E`, the `.s` file under
+    `-S`; nothing under `-M` -/
+def cc1Out (cmd : Cmd P) (u : Input P) : Option P :=
+  if cmd.depsOnly then none
+  else match cmd.mode with
+    | .E => cmd.out
+    | .S => some (unitOutput cmd u)
+    | _ => none
 
 /-- what is known when processing `u` ended in `exit(1)` -/
 def UnitFail (env : Env P) (cmd : Cmd P) (ts : List P) (u : Input P) (y e : DState P × FS P) : Prop :=
   ∀ st, e.1.log.getLast? = some (.wait .cc1 st) →
     effKind cmd.mode u.kind = .C ∧ st = (env.sched .cc1 y.1.nCc1).status ∧
     (∀ t ∈ e.1.tmpfiles, t ∈ ts) ∧ (∀ t ∈ y.1.tmpfiles, t ∈ e.1.tmpfiles) ∧
-    (∀ p, p ∉ e.1.tmpfiles → e.2.get p = y.2.get p)
+    (∀ p, p ∉ e.1.tmpfiles → e.2.get p =
+      if (env.sched .cc1 y.1.nCc1).leaves = .complete ∧ cc1Out cmd u = some p
+      then some ⟨unitCls cmd, y.2.origins u.path⟩ else y.2.get p)
 
 theorem childEffect_ok {mode : Mode} {prog : Prog} {oc : Outcome} {fs : FS P} {i : List P} {o : P}
     (h : oc.status.wait = 0) : childEffect mode prog oc fs i (some o) = fs.set o (childOut mode prog fs i) := by
   simp [childEffect, h]
 
 theorem childEffect_cc1_fail {mode : Mode} {oc : Outcome} {fs : FS P} {i : List P} {o : Option P}
-    (h : ¬ oc.status.wait = 0) : childEffect mode .cc1 oc fs i o = fs := by
-  cases o <;> simp [childEffect, h]
+    (h : ¬ oc.status.wait = 0) (hl : oc.leaves ≠ .complete) : childEffect mode .cc1 oc fs i o = fs := by
+  cases o <;> simp [childEffect, h, hl]
 
 omit [DecidableEq P] in
 theorem getLast_ne {l : List (Event P)} {a b : Event P} (h : a ≠ b) : (l ++ [a]).getLast? ≠ some b := by
   simp [List.getLast?_append, h]
 
+theorem isUnit_deps {cmd : Cmd P} {u : Input P} (h : isUnit cmd u = true) : cmd.depsOnly = false := by
+  unfold isUnit at h
+  cases hd : cmd.depsOnly with
+  | false => rfl
+  | true => simp [hd] at h
+
 theorem isUnit_not_link {cmd : Cmd P} {u : Input P} (h : isUnit cmd u = true) : cmd.mode ≠ .link := by
   intro hm
+  have hd := isUnit_deps h
   unfold isUnit at h
-  rw [hm] at h
+  rw [hm, hd] at h
   cases hk : effKind Mode.link u.kind <;> simp [hk] at h
+
+theorem isUnit_not_linking {cmd : Cmd P} {u : Input P} (h : isUnit cmd u = true) : ¬ linking cmd :=
+  fun hl => isUnit_not_link h hl.1
 
 theorem unitOutput_requested {cmd : Cmd P} {u : Input P} (hu : u ∈ cmd.inputs) (h : isUnit cmd u = true) :
     unitOutput cmd u ∈ requested cmd := by
   unfold requested
-  rw [if_neg (isUnit_not_link h)]
+  rw [if_neg (by simp [isUnit_deps h]), if_neg (isUnit_not_link h)]
   exact List.mem_map.mpr ⟨u, List.mem_filter.mpr ⟨hu, h⟩, rfl⟩
 
 /-! ### existential summaries of the macro steps -/
@@ -325,9 +349,9 @@ def isUnitMK (o : Bool) : Mode → Kind → Bool
   | .c, .asm => true
   | _, _ => false
 
-theorem isUnit_eq {cmd : Cmd P} {u : Input P} {m : Mode} {k : Kind} (hm : cmd.mode = m)
+theorem isUnit_eq {cmd : Cmd P} {u : Input P} {m : Mode} {k : Kind} (hd : cmd.depsOnly = false) (hm : cmd.mode = m)
     (hk : effKind cmd.mode u.kind = k) : isUnit cmd u = isUnitMK cmd.out.isSome m k := by
-  unfold isUnit; rw [hk, hm]; rfl
+  unfold isUnit; rw [hk, hm, hd]; rfl
 
 def planTempsMK : Kind → Mode → Nat
   | .C, .c => 1
@@ -335,9 +359,9 @@ def planTempsMK : Kind → Mode → Nat
   | .asm, .link => 1
   | _, _ => 0
 
-theorem planTemps_eq {cmd : Cmd P} {u : Input P} {m : Mode} {k : Kind} (hm : cmd.mode = m)
+theorem planTemps_eq {cmd : Cmd P} {u : Input P} {m : Mode} {k : Kind} (hd : cmd.depsOnly = false) (hm : cmd.mode = m)
     (hk : effKind cmd.mode u.kind = k) : planTemps cmd u = planTempsMK k m := by
-  unfold planTemps; rw [hk, hm]; rfl
+  unfold planTemps; rw [hk, hm, hd]; rfl
 
 def planMK (cmd : Cmd P) (n : Nat) (i : Input P) : Kind → Mode → List (Act P)
   | .lib, _ => [.pushLd (.path i.path)]
@@ -354,10 +378,29 @@ def planMK (cmd : Cmd P) (n : Nat) (i : Input P) : Kind → Mode → List (Act P
   | .C, .link => [.mktemp, .mktemp, .run .cc1 (.path i.path) (some (.tmp n)),
                   .run .as (.tmp n) (some (.tmp (n + 1))), .pushLd (.tmp (n + 1))]
 
-theorem plan_eq {cmd : Cmd P} {u : Input P} {n : Nat} {m : Mode} {k : Kind} (hm : cmd.mode = m)
+theorem plan_eq {cmd : Cmd P} {u : Input P} {n : Nat} {m : Mode} {k : Kind} (hd : cmd.depsOnly = false) (hm : cmd.mode = m)
     (hk : effKind cmd.mode u.kind = k) : plan cmd n u = planMK cmd n u k m := by
   unfold plan; rw [hk]
-  cases k <;> simp only [planMK] <;> rw [hm] <;> cases m <;> rfl
+  cases k <;> simp only [planMK, hd] <;> rw [hm] <;> cases m <;> rfl
+
+/-- the loop body under `-M` -/
+def planD (i : Input P) : Kind → List (Act P)
+  | .lib => [.pushLd (.path i.path)]
+  | .unknown => [.fail .unknownExt]
+  | .obj => [.pushLd (.path i.path)]
+  | .asm => []
+  | .C => [.run .cc1 (.path i.path) none]
+
+theorem plan_deps {cmd : Cmd P} {u : Input P} {n : Nat} {k : Kind} (hd : cmd.depsOnly = true)
+    (hk : effKind cmd.mode u.kind = k) : plan cmd n u = planD u k := by
+  unfold plan; rw [hk]
+  cases k <;> simp only [planD, hd] <;> rfl
+
+theorem planTemps_deps {cmd : Cmd P} {u : Input P} (hd : cmd.depsOnly = true) : planTemps cmd u = 0 := by
+  unfold planTemps; simp [hd]
+
+theorem isUnit_depsOnly {cmd : Cmd P} {u : Input P} (hd : cmd.depsOnly = true) : isUnit cmd u = false := by
+  unfold isUnit; simp [hd]
 
 section unit
 variable (env : Env P) (cmd : Cmd P) (fs₀ : FS P) (ts : List P) (S : Setup env cmd fs₀ ts)
@@ -407,18 +450,102 @@ theorem unit_step (rest : List (Act P)) (y : DState P × FS P) (hI : LoopInv cmd
     · intro p _ _; rw [h5]
     · intro _; exact ⟨u.path, h3, by rw [h5], Or.inr rfl⟩
     · intro _ q hq; rw [h3] at hq; simpa using hq
+  have hfailC : effKind cmd.mode u.kind = .C → ∀ (e : DState P × FS P) (y1 : DState P × FS P) (i : P) (o : Option P),
+      i = u.path → (∀ q, o = some q → q ∈ y1.1.tmpfiles ∨ cc1Out cmd u = some q) → (∀ q, cc1Out cmd u = some q → o = some q) →
+      y1.1.nCc1 = y.1.nCc1 → (∀ t ∈ y1.1.tmpfiles, t ∈ ts) → (∀ t ∈ y.1.tmpfiles, t ∈ y1.1.tmpfiles) →
+      (∀ p, p ∉ y1.1.tmpfiles → y1.2.get p = y.2.get p) →
+      ¬ (env.sched .cc1 (y1.1.count .cc1)).status.wait = 0 → e.1.tmpfiles = y1.1.tmpfiles →
+      e.2 = childEffect env.mode .cc1 (env.sched .cc1 (y1.1.count .cc1)) y1.2 [i] o →
+      e.1.log = y1.1.log ++ [.spawn .cc1 [i] o, .wait .cc1 (env.sched .cc1 (y1.1.count .cc1)).status] →
+      UnitFail env cmd ts u y e := by
+    intro hk e y1 i o hi hoT hoC hc hs1 hs2 hfr hw h1 h5 h6 st hst
+    subst hi
+    rw [h6] at hst
+    simp only [List.getLast?_append, List.getLast?_cons_cons, List.getLast?_singleton, Option.some_or,
+      Option.some.injEq, Event.wait.injEq, true_and] at hst
+    refine ⟨hk, ?_, by rw [h1]; exact hs1, by rw [h1]; exact hs2, ?_⟩
+    · rw [← hst]; show _ = (env.sched Prog.cc1 y.1.nCc1).status; rw [← hc]; rfl
+    · intro p hp
+      rw [h1] at hp
+      have hcnt : (env.sched .cc1 (y1.1.count .cc1)) = env.sched .cc1 y.1.nCc1 := by
+        show env.sched .cc1 y1.1.nCc1 = _
+        rw [hc]
+      rw [h5, hcnt]
+      have hwx' : ¬ (env.sched .cc1 y.1.nCc1).status.wait = 0 := by rw [← hcnt]; exact hw
+      by_cases hlv : (env.sched .cc1 y.1.nCc1).leaves = .complete
+      · -- the one late failure: the output was written completely
+        have horg : y1.2.origins u.path = y.2.origins u.path :=
+          FS.origins_congr (hfr _ (fun h => hupts (hs1 _ h)))
+        by_cases hcp : cc1Out cmd u = some p
+        · rw [if_pos ⟨hlv, hcp⟩, hoC p hcp]
+          simp only [childEffect, hlv, or_true, if_true, FS.get_set_self]
+          have hm2 : cmd.mode = .E ∨ cmd.mode = .S := by
+            unfold cc1Out at hcp
+            split at hcp
+            · cases hcp
+            · cases hm : cmd.mode <;> simp [hm] at hcp ⊢
+          simp only [childOut, List.flatMap_cons, List.flatMap_nil, List.append_nil, horg, hmode]
+          rcases hm2 with hm | hm <;> simp [unitCls, hm]
+        · rw [if_neg (fun h => hcp h.2)]
+          cases o with
+          | none => simp only [childEffect]; exact hfr p hp
+          | some q =>
+            have hqp : p ≠ q := by
+              rcases hoT q rfl with hq | hq
+              · exact fun e => hp (e ▸ hq)
+              · exact fun e => hcp (e ▸ hq)
+            simp only [childEffect, hlv, or_true, if_true]
+            rw [FS.get_set_ne _ _ hqp]
+            exact hfr p hp
+      · rw [if_neg (fun h => hlv h.1), childEffect_cc1_fail hwx' hlv]
+        exact hfr p hp
+  by_cases hdT : cmd.depsOnly = true
+  · -- `-M`: no temporaries, no units, no linking
+    have hpt : planTemps cmd u = 0 := planTemps_deps hdT
+    have hu : isUnit cmd u = false := isUnit_depsOnly hdT
+    have hnl : ¬ linking cmd := fun h => by rw [h.2] at hdT; cases hdT
+    cases hk : effKind cmd.mode u.kind with
+    | lib => left; exact pushCase (by rw [plan_deps hdT hk]; rfl) hu hpt (by simp [hk])
+    | obj => left; exact pushCase (by rw [plan_deps hdT hk]; rfl) hu hpt (by simp [hk])
+    | unknown =>
+      right
+      rw [plan_deps hdT hk]
+      refine ⟨_, by simp only [planD, List.cons_append, List.nil_append, doActs, doAct]; rfl, ?_⟩
+      intro st hst
+      simp [DState.emit, DState.exitWith] at hst
+    | asm =>
+      left
+      rw [plan_deps hdT hk]
+      simp only [planD, List.nil_append]
+      refine ⟨y, rfl, ⟨by rw [hpt]; exact htm, by rw [hpt]; exact hnt, by simp [hk], fun _ _ _ => rfl, by simp [hu], ?_, ?_⟩⟩
+      · intro h; exact absurd h hnl
+      · intro _ q hq; exact Or.inl hq
+    | C =>
+      rw [plan_deps hdT hk]
+      simp only [planD, List.cons_append, List.nil_append]
+      rcases run_step env .cc1 (.path u.path) none rest y u.path none rfl rfl with
+        ⟨z, hz, hw, h1, h2, h3, h4, h5⟩ | ⟨e, he, hw, h1, h5, h6⟩
+      · left
+        refine ⟨z, hz, ⟨by rw [h1, hpt]; exact htm, by rw [h2, hpt]; exact hnt, by simp [h4, hk], ?_, by simp [hu], ?_, ?_⟩⟩
+        · intro p _ _; rw [h5]; rfl
+        · intro h; exact absurd h hnl
+        · intro _ q hq; rw [h3] at hq; exact Or.inl hq
+      · right
+        exact ⟨e, he, hfailC hk e y u.path none rfl (by intro q h; cases h) (by intro q h; simp [cc1Out, hdT] at h) rfl hsub
+          (fun _ h => h) (fun _ _ => rfl) hw h1 h5 h6⟩
+  have hd : cmd.depsOnly = false := by simpa using hdT
   cases hk : effKind cmd.mode u.kind with
   | lib =>
     left
-    exact pushCase (by rw [plan_eq rfl hk]; rfl) (by rw [isUnit_eq rfl hk]; cases cmd.mode <;> rfl)
-      (by rw [planTemps_eq rfl hk]; cases cmd.mode <;> rfl) (by simp [hk])
+    exact pushCase (by rw [plan_eq hd rfl hk]; rfl) (by rw [isUnit_eq hd rfl hk]; cases cmd.mode <;> rfl)
+      (by rw [planTemps_eq hd rfl hk]; cases cmd.mode <;> rfl) (by simp [hk])
   | obj =>
     left
-    exact pushCase (by rw [plan_eq rfl hk]; rfl) (by rw [isUnit_eq rfl hk]; cases cmd.mode <;> rfl)
-      (by rw [planTemps_eq rfl hk]; cases cmd.mode <;> rfl) (by simp [hk])
+    exact pushCase (by rw [plan_eq hd rfl hk]; rfl) (by rw [isUnit_eq hd rfl hk]; cases cmd.mode <;> rfl)
+      (by rw [planTemps_eq hd rfl hk]; cases cmd.mode <;> rfl) (by simp [hk])
   | unknown =>
     right
-    rw [plan_eq rfl hk]
+    rw [plan_eq hd rfl hk]
     refine ⟨_, by simp only [planMK, List.cons_append, List.nil_append, doActs, doAct]; rfl, ?_⟩
     intro st hst
     simp [DState.emit, DState.exitWith] at hst
@@ -427,18 +554,18 @@ theorem unit_step (rest : List (Act P)) (y : DState P × FS P) (hI : LoopInv cmd
     | E => rw [hm] at hk; have := effKind_E (k := u.kind) (by rw [hk]; simp); rw [hk] at this; cases this
     | S =>
       left
-      have hpl : plan cmd (totalTemps cmd pre) u = [] := by rw [plan_eq hm hk]; rfl
-      have hpt : planTemps cmd u = 0 := by rw [planTemps_eq hm hk]; rfl
-      have hu : isUnit cmd u = false := by rw [isUnit_eq hm hk]; rfl
+      have hpl : plan cmd (totalTemps cmd pre) u = [] := by rw [plan_eq hd hm hk]; rfl
+      have hpt : planTemps cmd u = 0 := by rw [planTemps_eq hd hm hk]; rfl
+      have hu : isUnit cmd u = false := by rw [isUnit_eq hd hm hk]; rfl
       rw [hpl]
       refine ⟨y, rfl, ⟨by rw [hpt]; exact htm, by rw [hpt]; exact hnt, by simp [hk], fun _ _ _ => rfl, by simp [hu], ?_, ?_⟩⟩
-      · intro h; rw [hm] at h; cases h
+      · intro h; have := h.1; rw [hm] at this; cases this
       · intro _ q hq; exact Or.inl hq
     | c =>
       have hpl : plan cmd (totalTemps cmd pre) u = [.run .as (.path u.path) (some (.path (unitOutput cmd u)))] := by
-        rw [plan_eq hm hk]; rfl
-      have hpt : planTemps cmd u = 0 := by rw [planTemps_eq hm hk]; rfl
-      have hu : isUnit cmd u = true := by rw [isUnit_eq hm hk]; rfl
+        rw [plan_eq hd hm hk]; rfl
+      have hpt : planTemps cmd u = 0 := by rw [planTemps_eq hd hm hk]; rfl
+      have hu : isUnit cmd u = true := by rw [isUnit_eq hd hm hk]; rfl
       rw [hpl]
       rcases run_step env .as (.path u.path) (some (.path (unitOutput cmd u))) rest y u.path (some (unitOutput cmd u)) rfl rfl with
         ⟨z, hz, hw, h1, h2, h3, h4, h5⟩ | ⟨e, he, hw, h1, h5, h6⟩
@@ -446,7 +573,7 @@ theorem unit_step (rest : List (Act P)) (y : DState P × FS P) (hI : LoopInv cmd
         refine ⟨z, hz, ⟨by rw [h1, hpt]; exact htm, by rw [h2, hpt]; exact hnt, by simp [h4, hk], ?_, ?_, ?_, ?_⟩⟩
         · intro p _ hp; rw [h5, childEffect_ok hw]; exact FS.get_set_ne _ _ (hp hu)
         · intro _; rw [h5, childEffect_ok hw, FS.get_set_self]; simp [childOut, unitCls, hm]
-        · intro h; rw [hm] at h; cases h
+        · intro h; have := h.1; rw [hm] at this; cases this
         · intro _ q hq; rw [h3] at hq; exact Or.inl hq
       · right
         refine ⟨e, he, ?_⟩
@@ -456,9 +583,9 @@ theorem unit_step (rest : List (Act P)) (y : DState P × FS P) (hI : LoopInv cmd
     | link =>
       have hpl : plan cmd (totalTemps cmd pre) u =
           [.mktemp, .run .as (.path u.path) (some (.tmp (totalTemps cmd pre))), .pushLd (.tmp (totalTemps cmd pre))] := by
-        rw [plan_eq hm hk]; rfl
-      have hpt : planTemps cmd u = 1 := by rw [planTemps_eq hm hk]; rfl
-      have hu : isUnit cmd u = false := by rw [isUnit_eq hm hk]; rfl
+        rw [plan_eq hd hm hk]; rfl
+      have hpt : planTemps cmd u = 1 := by rw [planTemps_eq hd hm hk]; rfl
+      have hu : isUnit cmd u = false := by rw [isUnit_eq hd hm hk]; rfl
       rw [hpl]
       obtain ⟨t, ht⟩ : ∃ t, ts[totalTemps cmd pre]? = some t := ⟨ts[totalTemps cmd pre]'(by omega), List.getElem?_eq_getElem _⟩
       have htnew : t ∉ y.1.tmpfiles := by rw [htm]; exact not_mem_take_of_nodup S.nodup ht
@@ -489,33 +616,20 @@ theorem unit_step (rest : List (Act P)) (y : DState P × FS P) (hI : LoopInv cmd
           refine ⟨t, by rw [c3, b3, a3], ?_, Or.inl (by rw [c1, b1, a1]; simp)⟩
           rw [c5, b5, childEffect_ok hw, a5]
           simp [FS.origins, FS.get_set_self, childOut, FS.get_set_ne _ _ hup]
-        · intro h; exact absurd hm h
+        · intro h; exact absurd ⟨hm, hd⟩ h
       · right
         refine ⟨e, he, ?_⟩
         intro st hst
         rw [b6] at hst
         simp at hst
   | C =>
-    have hfailC : ∀ (e : DState P × FS P) (y1 : DState P × FS P) (i : P) (o : Option P),
-        y1.1.nCc1 = y.1.nCc1 → (∀ t ∈ y1.1.tmpfiles, t ∈ ts) → (∀ t ∈ y.1.tmpfiles, t ∈ y1.1.tmpfiles) →
-        (∀ p, p ∉ y1.1.tmpfiles → y1.2.get p = y.2.get p) →
-        ¬ (env.sched .cc1 (y1.1.count .cc1)).status.wait = 0 → e.1.tmpfiles = y1.1.tmpfiles →
-        e.2 = childEffect env.mode .cc1 (env.sched .cc1 (y1.1.count .cc1)) y1.2 [i] o →
-        e.1.log = y1.1.log ++ [.spawn .cc1 [i] o, .wait .cc1 (env.sched .cc1 (y1.1.count .cc1)).status] →
-        UnitFail env cmd ts u y e := by
-      intro e y1 i o hc hs1 hs2 hfr hw h1 h5 h6 st hst
-      rw [h6] at hst
-      simp only [List.getLast?_append, List.getLast?_cons_cons, List.getLast?_singleton, Option.some_or,
-        Option.some.injEq, Event.wait.injEq, true_and] at hst
-      refine ⟨hk, ?_, by rw [h1]; exact hs1, by rw [h1]; exact hs2, ?_⟩
-      · rw [← hst]; show _ = (env.sched Prog.cc1 y.1.nCc1).status; rw [← hc]; rfl
-      · intro p hp; rw [h5, childEffect_cc1_fail hw]; rw [h1] at hp; exact hfr p hp
+    have hfailC := hfailC hk
     cases hm : cmd.mode with
     | E =>
       have hpl : plan cmd (totalTemps cmd pre) u = [.run .cc1 (.path u.path) (cmd.out.map .path)] := by
-        rw [plan_eq hm hk]; rfl
-      have hpt : planTemps cmd u = 0 := by rw [planTemps_eq hm hk]; rfl
-      have hu : isUnit cmd u = cmd.out.isSome := by rw [isUnit_eq hm hk]; rfl
+        rw [plan_eq hd hm hk]; rfl
+      have hpt : planTemps cmd u = 0 := by rw [planTemps_eq hd hm hk]; rfl
+      have hu : isUnit cmd u = cmd.out.isSome := by rw [isUnit_eq hd hm hk]; rfl
       have hro : resolveOut y.1.tmpfiles (cmd.out.map Ref.path) = some cmd.out := by cases cmd.out <;> rfl
       rw [hpl]
       rcases run_step env .cc1 (.path u.path) (cmd.out.map .path) rest y u.path cmd.out rfl hro with
@@ -536,15 +650,16 @@ theorem unit_step (rest : List (Act P)) (y : DState P × FS P) (hI : LoopInv cmd
           | some o =>
             rw [h5, ho, childEffect_ok hw]
             simp [unitOutput, ho, FS.get_set_self, childOut, unitCls, hm, hmode]
-        · intro h; rw [hm] at h; cases h
+        · intro h; have := h.1; rw [hm] at this; cases this
         · intro _ q hq; rw [h3] at hq; exact Or.inl hq
       · right
-        exact ⟨e, he, hfailC e y u.path cmd.out rfl hsub (fun _ h => h) (fun _ _ => rfl) hw h1 h5 h6⟩
+        exact ⟨e, he, hfailC e y u.path cmd.out rfl (by intro q h; right; simp [cc1Out, hd, hm, h])
+          (by intro q h; simpa [cc1Out, hd, hm] using h) rfl hsub (fun _ h => h) (fun _ _ => rfl) hw h1 h5 h6⟩
     | S =>
       have hpl : plan cmd (totalTemps cmd pre) u = [.run .cc1 (.path u.path) (some (.path (unitOutput cmd u)))] := by
-        rw [plan_eq hm hk]; rfl
-      have hpt : planTemps cmd u = 0 := by rw [planTemps_eq hm hk]; rfl
-      have hu : isUnit cmd u = true := by rw [isUnit_eq hm hk]; rfl
+        rw [plan_eq hd hm hk]; rfl
+      have hpt : planTemps cmd u = 0 := by rw [planTemps_eq hd hm hk]; rfl
+      have hu : isUnit cmd u = true := by rw [isUnit_eq hd hm hk]; rfl
       rw [hpl]
       rcases run_step env .cc1 (.path u.path) (some (.path (unitOutput cmd u))) rest y u.path (some (unitOutput cmd u)) rfl rfl with
         ⟨z, hz, hw, h1, h2, h3, h4, h5⟩ | ⟨e, he, hw, h1, h5, h6⟩
@@ -552,17 +667,18 @@ theorem unit_step (rest : List (Act P)) (y : DState P × FS P) (hI : LoopInv cmd
         refine ⟨z, hz, ⟨by rw [h1, hpt]; exact htm, by rw [h2, hpt]; exact hnt, by simp [h4, hk], ?_, ?_, ?_, ?_⟩⟩
         · intro p _ hp; rw [h5, childEffect_ok hw]; exact FS.get_set_ne _ _ (hp hu)
         · intro _; rw [h5, childEffect_ok hw, FS.get_set_self]; simp [childOut, unitCls, hm, hmode]
-        · intro h; rw [hm] at h; cases h
+        · intro h; have := h.1; rw [hm] at this; cases this
         · intro _ q hq; rw [h3] at hq; exact Or.inl hq
       · right
-        exact ⟨e, he, hfailC e y u.path _ rfl hsub (fun _ h => h) (fun _ _ => rfl) hw h1 h5 h6⟩
+        exact ⟨e, he, hfailC e y u.path _ rfl (by intro q h; right; simpa [cc1Out, hd, hm] using h)
+          (by intro q h; simpa [cc1Out, hd, hm] using h) rfl hsub (fun _ h => h) (fun _ _ => rfl) hw h1 h5 h6⟩
     | c =>
       have hpl : plan cmd (totalTemps cmd pre) u =
           [.mktemp, .run .cc1 (.path u.path) (some (.tmp (totalTemps cmd pre))),
            .run .as (.tmp (totalTemps cmd pre)) (some (.path (unitOutput cmd u)))] := by
-        rw [plan_eq hm hk]; rfl
-      have hpt : planTemps cmd u = 1 := by rw [planTemps_eq hm hk]; rfl
-      have hu : isUnit cmd u = true := by rw [isUnit_eq hm hk]; rfl
+        rw [plan_eq hd hm hk]; rfl
+      have hpt : planTemps cmd u = 1 := by rw [planTemps_eq hd hm hk]; rfl
+      have hu : isUnit cmd u = true := by rw [isUnit_eq hd hm hk]; rfl
       rw [hpl]
       obtain ⟨t, ht⟩ : ∃ t, ts[totalTemps cmd pre]? = some t := ⟨ts[totalTemps cmd pre]'(by omega), List.getElem?_eq_getElem _⟩
       have htnew : t ∉ y.1.tmpfiles := by rw [htm]; exact not_mem_take_of_nodup S.nodup ht
@@ -603,7 +719,7 @@ theorem unit_step (rest : List (Act P)) (y : DState P × FS P) (hI : LoopInv cmd
           · intro _
             rw [c5, childEffect_ok hw2, FS.get_set_self, b5, childEffect_ok hw, a5]
             simp [FS.origins, FS.get_set_self, childOut, unitCls, hm, FS.get_set_ne _ _ hup]
-          · intro h; rw [hm] at h; cases h
+          · intro h; have := h.1; rw [hm] at this; cases this
           · intro _ q hq; rw [c3, b3, a3] at hq; exact Or.inl hq
         · right
           refine ⟨e, he, ?_⟩
@@ -611,7 +727,8 @@ theorem unit_step (rest : List (Act P)) (y : DState P × FS P) (hI : LoopInv cmd
           rw [c6] at hst
           simp at hst
       · right
-        refine ⟨e, he, hfailC e y1 u.path (some t) a4 hs1 (fun x hx => by rw [a1]; simp [hx]) ?_ hw b1 b5 b6⟩
+        refine ⟨e, he, hfailC e y1 u.path (some t) rfl (by intro q h; injection h with h; left; rw [a1, ← h]; simp)
+          (by intro q h; simp [cc1Out, hd, hm] at h) a4 hs1 (fun x hx => by rw [a1]; simp [hx]) ?_ hw b1 b5 b6⟩
         intro p hp
         rw [a5]
         exact FS.get_set_ne _ _ (fun e => hp (by rw [a1, e]; simp))
@@ -620,9 +737,9 @@ theorem unit_step (rest : List (Act P)) (y : DState P × FS P) (hI : LoopInv cmd
           [.mktemp, .mktemp, .run .cc1 (.path u.path) (some (.tmp (totalTemps cmd pre))),
            .run .as (.tmp (totalTemps cmd pre)) (some (.tmp (totalTemps cmd pre + 1))),
            .pushLd (.tmp (totalTemps cmd pre + 1))] := by
-        rw [plan_eq hm hk]; rfl
-      have hpt : planTemps cmd u = 2 := by rw [planTemps_eq hm hk]; rfl
-      have hu : isUnit cmd u = false := by rw [isUnit_eq hm hk]; rfl
+        rw [plan_eq hd hm hk]; rfl
+      have hpt : planTemps cmd u = 2 := by rw [planTemps_eq hd hm hk]; rfl
+      have hu : isUnit cmd u = false := by rw [isUnit_eq hd hm hk]; rfl
       rw [hpl]
       obtain ⟨t, ht⟩ : ∃ t, ts[totalTemps cmd pre]? = some t := ⟨ts[totalTemps cmd pre]'(by omega), List.getElem?_eq_getElem _⟩
       obtain ⟨t', ht'⟩ : ∃ t, ts[totalTemps cmd pre + 1]? = some t :=
@@ -690,14 +807,15 @@ theorem unit_step (rest : List (Act P)) (y : DState P × FS P) (hI : LoopInv cmd
             rw [d5, c5, childEffect_ok hw2, b5, childEffect_ok hw, a5', a5]
             simp [FS.origins, FS.get_set_self, childOut, FS.get_set_ne _ _ hup, FS.get_set_ne _ _ hup',
               FS.get_set_ne _ _ htt'.symm]
-          · intro h; exact absurd hm h
+          · intro h; exact absurd ⟨hm, hd⟩ h
         · right
           refine ⟨e, he, ?_⟩
           intro st hst
           rw [c6] at hst
           simp at hst
       · right
-        refine ⟨e, he, hfailC e y1' u.path (some t) (by rw [a4', a4]) hs1 (fun x hx => by rw [htf]; simp [hx]) ?_ hw b1 b5 b6⟩
+        refine ⟨e, he, hfailC e y1' u.path (some t) rfl (by intro q h; injection h with h; left; rw [htf, ← h]; simp)
+          (by intro q h; simp [cc1Out, hd, hm] at h) (by rw [a4', a4]) hs1 (fun x hx => by rw [htf]; simp [hx]) ?_ hw b1 b5 b6⟩
         intro p hp
         rw [htf] at hp
         rw [a5', a5]
@@ -715,7 +833,7 @@ theorem unit_out_distinct (hu : isUnit cmd u = true) :
     ∀ v ∈ pre, isUnit cmd v = true → unitOutput cmd v ≠ unitOutput cmd u := by
   have hnd := S.reqNodup
   unfold requested at hnd
-  rw [if_neg (isUnit_not_link hu), hin, List.filter_append, List.map_append] at hnd
+  rw [if_neg (by simp [isUnit_deps hu]), if_neg (isUnit_not_link hu), hin, List.filter_append, List.map_append] at hnd
   simp only [List.filter_cons, hu, if_true, List.map_cons] at hnd
   intro v hv hvu e
   have h1 : unitOutput cmd v ∈ (pre.filter (isUnit cmd)).map (unitOutput cmd) :=
@@ -766,10 +884,10 @@ theorem loopInv_step (y z : DState P × FS P) (hI : LoopInv cmd fs₀ ts pre y)
       · rcases hI.ldWhere x hx with h | h
         · exact Or.inr h
         · exact Or.inl (fun hz => S.notInput x (hzsub x hz) h)
-      · intro hu; exact absurd hm (isUnit_not_link hu)
+      · intro hu; exact absurd hm (isUnit_not_linking hu)
     · simp [hq2, hupath]
   · intro q hq
-    by_cases hm : cmd.mode = .link
+    by_cases hm : linking cmd
     · obtain ⟨q', hq1, _, hq3⟩ := hU.ld hm
       rw [hq1] at hq
       rcases List.mem_append.mp hq with h | h
@@ -800,7 +918,7 @@ def FailInfo (env : Env P) (cmd : Cmd P) (fs₀ : FS P) (ts : List P) (e : DStat
 /-- what is known about a run that reached `return 0` -/
 def Final (cmd : Cmd P) (fs₀ : FS P) (ts : List P) (z : DState P × FS P) : Prop :=
   ∃ y : DState P × FS P, LoopInv cmd fs₀ ts cmd.inputs y ∧ z.1.tmpfiles = y.1.tmpfiles ∧
-    z.2 = (if cmd.mode = .link ∧ y.1.ldArgs ≠ [] then
+    z.2 = (if cmd.mode = .link ∧ cmd.depsOnly = false ∧ y.1.ldArgs ≠ [] then
              y.2.set (cmd.out.getD cmd.aout) ⟨.exe, y.1.ldArgs.flatMap (fun p => y.2.origins p)⟩
            else y.2)
 
@@ -817,8 +935,8 @@ theorem loop_lemma (env : Env P) (cmd : Cmd P) (fs₀ : FS P) (ts : List P) (S :
     have hpre : pre = cmd.inputs := by simpa using hin.symm
     subst hpre
     simp only [compileLoop]
-    by_cases hm : cmd.mode = .link
-    · simp only [hm, if_true, doActs, doAct]
+    by_cases hm : cmd.mode = .link ∧ cmd.depsOnly = false
+    · simp only [hm, and_self, if_true, doActs, doAct]
       by_cases hl : y.1.ldArgs.isEmpty = true
       · simp only [hl, if_true]
         refine ⟨y, hI, rfl, ?_⟩
@@ -829,12 +947,13 @@ theorem loop_lemma (env : Env P) (cmd : Cmd P) (fs₀ : FS P) (ts : List P) (S :
         · simp only [hw, if_true]
           refine ⟨y, hI, rfl, ?_⟩
           have : y.1.ldArgs ≠ [] := by simpa using hl
-          simp [hm, this, childEffect, hw, childOut]
+          simp [hm.1, hm.2, this, childEffect, hw, childOut]
         · simp only [hw, if_false]
           intro st hst
           simp [DState.emit, DState.bump, DState.exitWith] at hst
     · simp only [hm, if_false, doActs]
-      exact ⟨y, hI, rfl, by simp [hm]⟩
+      refine ⟨y, hI, rfl, ?_⟩
+      rw [if_neg (fun h => hm ⟨h.1, h.2.1⟩)]
   | cons u post ih =>
     intro pre y hin hI
     simp only [compileLoop]
@@ -880,8 +999,13 @@ theorem compile_accepted {cmd : Cmd P} (h : Accepted cmd) : compile cmd = compil
 
 theorem plan_no_fail (cmd : Cmd P) (n : Nat) (u : Input P) (why : DrvErr)
     (h : Act.fail why ∈ plan cmd n u) : effKind cmd.mode u.kind = .unknown := by
-  cases hk : effKind cmd.mode u.kind <;> cases hm : cmd.mode <;>
-    first | rfl | (rw [plan_eq hm hk] at h; simp [planMK] at h)
+  cases hd : cmd.depsOnly with
+  | true =>
+    cases hk : effKind cmd.mode u.kind <;>
+      first | rfl | (rw [plan_deps hd hk] at h; simp [planD] at h)
+  | false =>
+    cases hk : effKind cmd.mode u.kind <;> cases hm : cmd.mode <;>
+      first | rfl | (rw [plan_eq hd hm hk] at h; simp [planMK] at h)
 
 theorem compileLoop_no_fail (cmd : Cmd P) (n : Nat) (l : List (Input P)) (why : DrvErr)
     (h : Act.fail why ∈ compileLoop cmd n l) : ∃ u ∈ l, effKind cmd.mode u.kind = .unknown := by
